@@ -105,7 +105,7 @@ func c07Ints() []int64 {
 
 func c07Floats() []float64 {
 	base := []float64{0, math.SmallestNonzeroFloat64, 2.2250738585072014e-308, 1e-300, 0.25, 0.5, 1, 1.5, 2, 2.5, 3, 3.5,
-		1 << 52, 1<<53 - 1, 1 << 53, 1<<53 + 2, 1 << 62, 9223372036854774784, 9223372036854775808, 9223372036854777856, 1e19, 1e300, 8.98846567431158e307, math.MaxFloat64}
+		1 << 52, 1<<53 - 1, 1 << 53, 1<<53 + 2, 1 << 62, 9223372036854774784, 9223372036854775808, 9223372036854777856, 1e19, 1e300, 2.9937604643020797e292, 8.98846567431158e307, 1.7976931348623155e308, math.MaxFloat64}
 	var out []float64
 	for _, b := range base {
 		out = append(out, b, -b)
@@ -735,6 +735,11 @@ func runC07(outDir string, seed int64, tier string) {
 	reg(">>", I(1), I(-1))
 	reg("+", F(1), F(math.MaxFloat64))
 	reg("+", F(math.MaxFloat64), F(1))
+	// F32: the pre-checks pass and the IEEE sum is a tie that rounds to infinity
+	reg("+", F(1.7976931348623155e308), F(2.9937604643020797e292))
+	reg("+", F(-1.7976931348623155e308), F(-2.9937604643020797e292))
+	reg("-", F(1.7976931348623155e308), F(-2.9937604643020797e292))
+	reg("-", F(-1.7976931348623155e308), F(2.9937604643020797e292))
 	reg("*", I(3037000500), I(3037000500))
 	reg("*", I(4294967295), I(4294967295))
 	reg("*", I(0), I(5))
